@@ -752,3 +752,9 @@ add("C01", "timeout-appended-where-rule-allows-it", "core_codemods/add_requests_
 add("C12", "semgrep-accumulation-returns-early", "core_codemods/sonar/api.py",
     [("        combined_result_set |= SonarResultSet.from_json(file)\n", "        combined_result_set |= SonarResultSet.from_json(file)\n        if not combined_result_set:\n            return combined_result_set\n")],
     "fire", "R-EVERY-INPUT-READ", "process_sonar_findings")
+add("C02", "order-imports-drops-redundant-alias", "codemodder/codemods/transformations/clean_imports.py",
+    [("    def _create_import_statement(self, name, alias, comments):\n", "    def _create_import_statement(self, name, alias, comments):\n        alias = None if alias == name else alias\n")],
+    "fire", "R-ALIAS-PRESERVED", "_create_import_statement")
+add("C02", "global-removed-outside-functions", "core_codemods/remove_module_global.py",
+    [("        if isinstance(scope, GlobalScope):", "        if not isinstance(scope, cst.metadata.FunctionScope):")],
+    "fire", "R-GLOBAL-REMOVAL-SCOPE", "leave_Global")
